@@ -1995,6 +1995,14 @@ class Interp:
                 raise PyRaise(ExcVal("SyntaxError", (str(ex),)))
             except (ValueError, RecursionError, MemoryError) as ex:
                 raise PyRaise(ExcVal(type(ex).__name__, (str(ex),)))
+        if name in ("functools.lru_cache", "lru_cache", "functools.cache", "cache", "functools.wraps", "wraps"):
+            # memoisation / metadata decorators: the decorated function computes what it computes (what a cache *shares*
+            # between calls is judged by structural rules, not by the interpretation)
+            if name.endswith("wraps"):
+                return stub(lambda interp, a_, k_: a_[0])
+            if len(args) == 1 and not kwargs and isinstance(args[0], (Func, BoundBuiltin)) :
+                return args[0]
+            return stub(lambda interp, a_, k_: a_[0])
         if name in ("types.MappingProxyType", "MappingProxyType") and len(args) == 1 and isinstance(args[0], dict):
             return args[0]          # a read-only view: the same entries (writes through a view do not occur in analysed code)
         if name in ("ast.iter_child_nodes", "ast.walk", "ast.iter_fields", "ast.dump", "ast.unparse") and len(args) >= 1 and isinstance(args[0], ast.AST) and not kwargs:
